@@ -81,8 +81,11 @@ class MS:
             return False
         if self.unit != other.unit or self.vunit != other.vunit:
             return False
+        if rtol == 0:
+            return (np.array_equal(self.wave, other.wave) and
+                    np.array_equal(np.asarray(self.value), np.asarray(other.value), equal_nan=True))
         return (np.allclose(self.wave, other.wave, rtol=rtol, atol=0) and
-                np.allclose(self.value, other.value, rtol=rtol, atol=1e-300))
+                np.allclose(self.value, other.value, rtol=rtol, atol=1e-300, equal_nan=True))
 
 
 def wellformed_obj(s):
